@@ -16,7 +16,7 @@
 //
 //	cfg ks=<id> n=<n> t=<t> m=<validators> | <lock>
 //	rt <route> node=<idx> nsub=<k> fail=<k|-> seed=<u64> meth=<M> ct=<kind> hdr=<literal|-> enc=<json|ssz>
-//	   balt=<bodyalt> items=<item;…> | <route> <meth> <ctflags> <hdr> <dec> <node> <nsub> <fail> <ord> <facts> <attenv> <items>
+//	   balt=<bodyalt> items=<item;…> tmpl=<0|1|2> | <route> <meth> <ctflags> <hdr> <dec> <node> <nsub> <fail> <ord> <facts> <attenv> <items>
 //	     item := <validator>/<version>/<epoch>/<slotoff>/<subcomm>/<alt>
 //	pb node=<idx> nsub=<k> seed=<u64> val=<v> epoch=<e> slotoff=<o> q=<queryalt> alt=<alt> | …   (GET /eth/v3/validator/blocks/{slot})
 //
@@ -43,7 +43,9 @@ import (
 	"strings"
 
 	eth2api "github.com/attestantio/go-eth2-client/api"
+	eth2v1 "github.com/attestantio/go-eth2-client/api/v1"
 	eth2spec "github.com/attestantio/go-eth2-client/spec"
+	"github.com/attestantio/go-eth2-client/spec/altair"
 	"github.com/attestantio/go-eth2-client/spec/electra"
 	eth2p0 "github.com/attestantio/go-eth2-client/spec/phase0"
 
@@ -185,6 +187,9 @@ type rtOp struct {
 	enc   string
 	balt  alt3
 	items []itemSpec
+	tmpl  int // 0: every element has its own random content; 1: all elements are built from ONE template (same
+	// attestation data / aggregate / block root / contribution, same committee), each for its own validator and
+	// validly signed; 2: the same, every validator in its own committee
 }
 
 func (o rtOp) recipe() string {
@@ -196,8 +201,8 @@ func (o rtOp) recipe() string {
 	if o.fail >= 0 {
 		f = strconv.Itoa(o.fail)
 	}
-	return fmt.Sprintf("rt %s node=%d nsub=%d fail=%s seed=%d meth=%s ct=%s hdr=%s enc=%s balt=%s items=%s", o.route, o.node, o.nsub, f, o.seed,
-		o.meth, o.ct, o.hdr, o.enc, o.balt, dashIfEmpty(strings.Join(is, ";")))
+	return fmt.Sprintf("rt %s node=%d nsub=%d fail=%s seed=%d meth=%s ct=%s hdr=%s enc=%s balt=%s items=%s tmpl=%d", o.route, o.node, o.nsub, f, o.seed,
+		o.meth, o.ct, o.hdr, o.enc, o.balt, dashIfEmpty(strings.Join(is, ";")), o.tmpl)
 }
 
 func kv(tok, key string) string {
@@ -208,7 +213,7 @@ func kv(tok, key string) string {
 }
 
 func parseRtOp(f []string) rtOp {
-	if len(f) != 12 {
+	if len(f) != 12 && len(f) != 13 {
 		panic("bad rt op")
 	}
 	o := rtOp{route: f[1], fail: -1}
@@ -227,6 +232,9 @@ func parseRtOp(f []string) rtOp {
 		for _, s := range strings.Split(x, ";") {
 			o.items = append(o.items, parseItemSpec(s))
 		}
+	}
+	if len(f) == 13 {
+		o.tmpl, _ = strconv.Atoi(kv(f[12], "tmpl"))
 	}
 	return o
 }
@@ -505,12 +513,24 @@ func (e *episode) execRt(run *hx.Run, o rtOp) {
 
 	// 1. build and sign the elements, fix the environment from the honest objects, alter fields of the wire objects
 	var wires []any
-	for _, it := range o.items {
+	var tmplKeys [][32]byte
+	for i, it := range o.items {
 		ba := buildArgs{valIdx: cl.valIdxOf(it.val), ver: it.ver % 7, blinded: kind == kBProp, epoch: it.epoch, slotOff: it.slotOff % spe,
 			subcomm: it.subcomm, commIdx: uint64(1 + ((it.val + 8) % 8)), vci: uint64((it.val + 8) % 8), commLen: 8, vcDoor: true}
 		if kind == kBProp && ba.ver < 2 {
 			ba.ver = 2
 		}
+		if o.tmpl > 0 {
+			// one template for the whole request: the generators draw the same random content for every
+			// element (same seed), slot and subcommittee are those of the first element; only what names
+			// the validator differs
+			rand.Seed(int64(o.seed))
+			ba.epoch, ba.slotOff, ba.subcomm, ba.ver = o.items[0].epoch, o.items[0].slotOff%spe, o.items[0].subcomm, o.items[0].ver%7
+			if o.tmpl == 1 {
+				ba.commIdx = uint64(1 + ((o.items[0].val + 8) % 8))
+			}
+		}
+		_ = i
 		s := buildSample(kind, ba)
 		inner := "ok"
 		if strings.HasPrefix(it.alt.kind, "inner") {
@@ -536,6 +556,7 @@ func (e *episode) execRt(run *hx.Run, o rtOp) {
 			env.proposals[hv.slot] = cons
 		}
 		w := wireOf(s)
+		tmplKeys = append(tmplKeys, templateKey(w))
 		if it.alt.kind == "field" {
 			ls := leavesOf(w)
 			if len(ls) > 0 {
@@ -545,6 +566,17 @@ func (e *episode) execRt(run *hx.Run, o rtOp) {
 			}
 		}
 		wires = append(wires, w)
+	}
+
+	if o.tmpl > 0 && len(tmplKeys) > 1 {
+		same := true
+		for _, k := range tmplKeys[1:] {
+			same = same && k == tmplKeys[0]
+		}
+		if !same && !(o.tmpl == 2 && kind == kAtt && o.items[0].ver%7 <= 4) { // own committees: pre-electra data carries the index
+			panic("harness: the elements of a shared-template request do not share the template: " + o.recipe())
+		}
+		run.Count("rt:template-subobject-shared")
 	}
 
 	// 2. encode, alter the body
@@ -803,6 +835,34 @@ func (e *episode) execRt(run *hx.Run, o rtOp) {
 	run.Op(o.recipe()+" | "+abs, status+" "+e.renderCalls(calls))
 }
 
+// templateKey: hash tree root of the sub-object the elements of a shared-template request have in common.
+func templateKey(w any) [32]byte {
+	var h htr
+	switch x := w.(type) {
+	case *eth2p0.Attestation:
+		h = x.Data
+	case *electra.SingleAttestation:
+		h = x.Data
+	case *eth2p0.SignedAggregateAndProof:
+		h = x.Message.Aggregate
+	case *electra.SignedAggregateAndProof:
+		h = x.Message.Aggregate
+	case *altair.SyncCommitteeMessage:
+		return x.BeaconBlockRoot
+	case *altair.SignedContributionAndProof:
+		h = x.Message.Contribution
+	case *eth2v1.BeaconCommitteeSelection:
+		return u64Root(uint64(x.Slot))
+	case *eth2v1.SyncCommitteeSelection:
+		return u64Root(uint64(x.Slot)<<8 | x.SubcommitteeIndex)
+	default:
+		return [32]byte{}
+	}
+	r, err := h.HashTreeRoot()
+	hx.Must(err)
+	return r
+}
+
 // shadowed: a later element of the same validator and slot group replaces element i in the set.
 func (e *episode) shadowed(infos []itemInfo, i int) bool {
 	for j := i + 1; j < len(infos); j++ {
@@ -862,6 +922,17 @@ func (e *episode) monitorDelivered(run *hx.Run, calls []obsCall, node int, infos
 				if in.valPk != nil && *in.valPk == pk && in.slot == c.duty.Slot {
 					samePk = true
 				}
+			}
+			named, namedValid := false, false
+			for _, in := range infos {
+				if in.valPk != nil && *in.valPk == pk && in.slot == c.duty.Slot {
+					named = true
+					namedValid = namedValid || in.valid
+				}
+			}
+			if named && !namedValid {
+				// C10 on its own terms: admitted only if it verifies for the SUBMITTED object's own root
+				run.Violate("router:invalid_partial_reached_subscriber", fmt.Sprintf("%s: a %s partial was delivered for validator %d although no element of the request body that names this validator verifies for its own content (content substituted on the way?)", where, kindNames[s.kind], e.valID(pk)))
 			}
 			switch {
 			case !same:
@@ -1356,6 +1427,66 @@ func (g *gen) sweep(rt *route, ver int, enc string, short bool) {
 	}
 }
 
+// sweepShared: the normal traffic of a node with several validators — one request whose elements are
+// built from ONE template (the same attestation data, the same aggregate, the same block root, the same
+// contribution), one element per cluster validator, each validly signed. First the intact request, then,
+// for position 0 and for a later position, EVERY leaf field of that element's wire object (reflection
+// walk) altered in that element only, after signing: the altered element must be judged on its own
+// content — a router that lets elements share sub-objects repairs it by substitution.
+func (g *gen) sweepShared(rt *route, ver int) {
+	node := 1 + g.r.Intn(g.cfg.n)
+	k := 2 + g.r.Intn(3)
+	if k > g.cfg.m {
+		k = g.cfg.m
+	}
+	vals := g.r.Perm(g.cfg.m)[:k]
+	epoch, slotOff, subcomm := uint64(g.r.Intn(27)), uint64(g.r.Intn(spe)), uint64(g.r.Intn(4))
+	mkItems := func() []itemSpec {
+		var out []itemSpec
+		for _, v := range vals {
+			out = append(out, itemSpec{val: v, ver: ver, epoch: epoch, slotOff: slotOff, subcomm: subcomm, alt: alt{kind: "none"}})
+		}
+		return out
+	}
+	base := rtOp{route: rt.name, node: node, nsub: 1 + g.r.Intn(2), fail: -1, meth: rt.method, ct: "json", hdr: "-", enc: "json", balt: alt3{kind: "none"}, tmpl: 1}
+	if rt.needsVer {
+		base.hdr = versionNames[ver]
+	}
+	mk := func(f func(o *rtOp)) {
+		o := base
+		o.seed = g.seed()
+		o.items = mkItems()
+		f(&o)
+		g.rt(o)
+	}
+	mk(func(o *rtOp) {})
+	mk(func(o *rtOp) { o.tmpl = 2 })
+	probe := buildSample(rt.kind, buildArgs{valIdx: valIdxBase, ver: ver, epoch: 5, commIdx: 1, commLen: 8, vcDoor: true})
+	n := len(leavesOf(wireOf(probe)))
+	positions := []int{0, 1 + g.r.Intn(k-1)}
+	if g.tier == "thorough" {
+		positions = positions[:0]
+		for p := 0; p < k; p++ {
+			positions = append(positions, p)
+		}
+	}
+	for _, pos := range positions {
+		for leaf := 0; leaf < n; leaf++ {
+			mk(func(o *rtOp) {
+				o.items[pos].alt = alt{kind: "field", a: uint64(leaf), b: uint64(g.r.Intn(64))}
+				if g.r.Chance(1, 3) {
+					o.tmpl = 2
+				}
+			})
+		}
+	}
+	// a signature substitution in one element of the shared request
+	mk(func(o *rtOp) {
+		it := &o.items[1+g.r.Intn(k-1)]
+		it.alt = g.mkAlt(signAlts[g.r.Intn(len(signAlts))], it.val, node, it.epoch, kindDom[rt.kind])
+	})
+}
+
 func (g *gen) sweepPb() {
 	node := 1 + g.r.Intn(g.cfg.n)
 	one := func(f func(o *pbOp)) {
@@ -1462,6 +1593,17 @@ func generate(run *hx.Run, a hx.Args) {
 			}
 		}
 	}
+	// first: requests whose elements share one template (every batch endpoint x version)
+	for _, i := range g.r.Perm(len(routes)) {
+		rt := routes[i]
+		if !rt.batch || rt.mode != "deliver" {
+			continue
+		}
+		for _, v := range versOf(rt) {
+			g.sweepShared(rt, v)
+		}
+	}
+	run.Counts["phase:shared-template-ops"] = a.N - g.left
 	combos = append(combos, combo{nil, 0, "", false}) // the propose-block sweep
 	for _, i := range g.r.Perm(len(combos)) {
 		if g.left <= 0 {
